@@ -22,15 +22,15 @@ Qed.
 
 Lemma sigv_eqb_eq x y : sigv_eqb x y = true <-> x = y.
 Proof.
-  destruct x, y; simpl; split; intro H; try discriminate; try (inversion H; subst).
+  destruct x as [a|a|a sa|a], y as [b|b|b sb|b]; simpl; split; intro H; try discriminate.
   - apply Z.eqb_eq in H; subst; auto.
-  - apply Z.eqb_refl.
+  - inversion H; subst. apply Z.eqb_refl.
   - apply Z.eqb_eq in H; subst; auto.
-  - apply Z.eqb_refl.
-  - apply ptype_eqb_eq in H; subst; auto.
-  - apply ptype_eqb_eq; auto.
+  - inversion H; subst. apply Z.eqb_refl.
+  - apply andb_true_iff in H. destruct H as [Ha Hb]. apply ptype_eqb_eq in Ha. apply Z.eqb_eq in Hb. subst; auto.
+  - inversion H; subst. apply andb_true_iff. split; [apply ptype_eqb_eq; auto | apply Z.eqb_refl].
   - apply Bool.eqb_prop in H; subst; auto.
-  - apply Bool.eqb_reflx.
+  - inversion H; subst. apply Bool.eqb_reflx.
 Qed.
 
 Lemma list_eqb_eq {A} (eqb : A -> A -> bool) :
